@@ -424,8 +424,9 @@ def reader_run(stream_obj, q, filt, parsing, mode, val, bf, bufsize=4096):
                         parsebitfield=bf, parsing=parsing, bufsize=bufsize,
                         errorhandler=lambda e: calls.append(errname(e)))
         for raw, parsed in rdr:
-            pr = uh.protocol(raw)
-            proto = {2: "ubx", 1: "nmea", 4: "rtcm"}.get(pr, "?")
+            # labelled by the lead byte the reader dispatched on (independent of the `protocol()` helper,
+            # which C11/C18 compare with this label)
+            proto = {0xb5: "ubx", 0x24: "nmea", 0xd3: "rtcm"}.get(raw[0] if raw else -1, "?")
             if parsed is None:
                 p = "None"
             elif proto == "ubx":
